@@ -2,7 +2,7 @@
 from .C02 import e2_jobs, META as _M
 
 META = dict(_M)
-CLASSES = ["contracts.C12_all:SquaredError", "contracts.C12_all:RelativeEntropy", "contracts.C12_all:EntropyHelpers", "contracts.C12_all:NonAffineModel"]
+CLASSES = ["contracts.C12_all:SquaredError", "contracts.C12_all:RelativeEntropy", "contracts.C12_all:EntropyHelpers", "contracts.C12_all:NonAffineModel", "contracts.C12_all:RoundVarz"]
 
 
 def jobs(tier, seed):
